@@ -53,7 +53,23 @@ func vfC09Universe() []*vfworld.Key {
 		return vfC09Keys
 	}
 	for i := 0; i < 4; i++ {
-		vfC09Keys = append(vfC09Keys, vfworld.NewKey(".", dns.ECDSAP256SHA256, 257, 100+i))
+		k := vfworld.NewKey(".", dns.ECDSAP256SHA256, 257, 100+i)
+		if i == 1 {
+			// K1, the anchor most scenarios revoke, is one of the keys (about 1 in 500) whose key tag does not simply grow
+			// by 128 when the REVOKE bit is set: the tag is a folded checksum and the bit carries
+			for n := 1000; ; n++ {
+				k = vfworld.NewKey(".", dns.ECDSAP256SHA256, 257, n)
+				rev := dns.Copy(k.RR).(*dns.DNSKEY)
+				rev.Flags |= DNSKEYFlagRevoke
+				if rev.KeyTag() != k.RR.KeyTag()+DNSKEYFlagRevoke {
+					break
+				}
+				if n > 20000 {
+					panic("harness: no key with a carrying REVOKE bit found")
+				}
+			}
+		}
+		vfC09Keys = append(vfC09Keys, k)
 	}
 	// same tag as key 0, other material: swap two aligned 16-bit words of a copy of key 1 until the tags agree is
 	// not generally possible, so collide by search over word swaps of key 0 itself (material differs, tag equal)
@@ -201,7 +217,7 @@ func vfC09Gen(rt *rapid.T) *vfC09Case {
 		case k < 19:
 			c.Steps = append(c.Steps, vfC09Step{Kind: "writefail", Files: rapid.SampledFrom([]string{"tombstones", "state", "both", "both"}).Draw(rt, "failfiles")})
 		default:
-			c.Steps = append(c.Steps, vfC09Step{Kind: "corrupt", Damage: rapid.SampledFrom([]string{"garbage", "truncate", "empty"}).Draw(rt, "damage")})
+			c.Steps = append(c.Steps, vfC09Step{Kind: "corrupt", Damage: rapid.SampledFrom([]string{"garbage", "truncate", "empty", "unreadable", "unreadable"}).Draw(rt, "damage")})
 		}
 	}
 	return c
@@ -408,6 +424,10 @@ func vfC09Run(t *testing.T, c *vfC09Case) (violation string, trace []string, cla
 					}
 				case "empty":
 					_ = os.WriteFile(p, nil, 0o600)
+				case "unreadable":
+					// present but impossible to open (permission bits do not stop root, a self-referencing link does)
+					_ = os.Remove(p)
+					_ = os.Symlink(filepath.Base(p), p)
 				}
 				led.storeDamaged = true
 				trace = append(trace, fmt.Sprintf("t=%s tombstone store damaged (%s)", since(), st.Damage))
